@@ -130,6 +130,16 @@ func (p *TermPool) BinBV(op string, a, b *Term) *Term {
 			return p.BV(w, uint64(sext(x, w)>>y))
 		}
 	}
+	// (x + c1) + c2 -> x + (c1+c2); c + x -> x + c; (x + c1) - c2 -> x + (c1-c2)
+	if op == "bvadd" && a.IsConst() && !b.IsConst() {
+		a, b = b, a
+	}
+	if op == "bvsub" && b.IsConst() {
+		return p.BinBV("bvadd", a, p.BV(w, -b.C))
+	}
+	if op == "bvadd" && b.IsConst() && a.Op == "bvadd" && a.Args[1].IsConst() {
+		return p.BinBV("bvadd", a.Args[0], p.BV(w, a.Args[1].C+b.C))
+	}
 	// light algebraic identities
 	if b.IsConst() && b.C == 0 && (op == "bvadd" || op == "bvsub" || op == "bvor" || op == "bvxor" || op == "bvshl" || op == "bvlshr") {
 		return a
@@ -174,7 +184,26 @@ func (p *TermPool) Cmp(op string, a, b *Term) *Term {
 			return p.Bool(false)
 		}
 	}
+	if op == "=" {
+		// x + c1 = x + c2  <=>  c1 = c2 (also with a missing constant)
+		ba, ca := splitAddConst(a)
+		bb, cb := splitAddConst(b)
+		if ba == bb && ba != nil {
+			return p.Bool(ca == cb)
+		}
+	}
 	return p.mk(&Term{Op: op, W: 0, Args: []*Term{a, b}})
+}
+
+// splitAddConst views t as base + constant.
+func splitAddConst(t *Term) (*Term, uint64) {
+	if t.IsConst() {
+		return nil, t.C
+	}
+	if t.Op == "bvadd" && t.Args[1].IsConst() {
+		return t.Args[0], t.Args[1].C
+	}
+	return t, 0
 }
 
 func (p *TermPool) Not(a *Term) *Term {
